@@ -42,8 +42,9 @@ Fixpoint find_idx {A} (p : A -> bool) (l : list A) (i : nat) : option nat :=
   end.
 
 (* ---------- registers *)
-(* r_pat: the identifier as a regular expression when it is not a plain literal (reading only: a register that is written
-   carries the literal r_ident in its identifier columns) *)
+(* r_pat: the identifier test as a regular expression when IDENTIFIER is not a plain literal. r_ident is the text that
+   Register.write puts into the identifier columns: the IDENTIFIER attribute itself, i.e. for a regular-expression
+   identifier its SOURCE text (such a register is re-readable only if the expression finds its own source: reg_wf) *)
 Record regdef := { r_ident : str; r_digits : nat; r_fields : list field; r_delim : option str; r_pat : option re }.
 
 Definition ident_field (r : regdef) : field := {| kind := KLit; size := r_digits r; start := 0 |}.
